@@ -36,6 +36,7 @@ type Outcome struct {
 	cause      string // why Serve left its loop, as far as the scheduler knows
 	served     bool
 	exitSeen, passedAtExit bool // Serve left its loop; the close deadline in force had passed by then
+	elemsRead, handled     int  // elements of the peer that Serve has read / that the handler was called for
 }
 
 const keyStateLock = "C10/close/deadlock:state-lock-held-across-write"
@@ -402,6 +403,7 @@ func (f *forced) consume() {
 	case "bad":
 		f.o.cause = "bad"
 	case "elem":
+		f.o.elemsRead++
 		if f.cur.Fail {
 			f.o.cause = "handlerish"
 		}
@@ -576,6 +578,9 @@ func runForced(sc *Scenario, choose func(depth int, enabled []int) int) *Outcome
 		st := r.s.State()
 		o.OCL, o.ICL = st&xmpp.OutputStreamClosed != 0, st&xmpp.InputStreamClosed != 0
 	}
+	f.h.mu.Lock()
+	o.handled = len(f.h.handled)
+	f.h.mu.Unlock()
 	f.mu.Lock()
 	copy(o.Res, f.res)
 	for _, p := range f.panics {
